@@ -165,6 +165,44 @@ def with_cgranges(interp):
     return interp
 
 
+class ChainEnv(dict):
+    """local variables of a nested function: reads fall back to the enclosing function's environment (by reference, so later
+    updates are seen, as with Python's cell variables); names declared `nonlocal` are written to the enclosing environment"""
+
+    def __init__(self, parent, nonlocals=()):
+        super().__init__()
+        self.parent = parent
+        self.nonlocals = set(nonlocals)
+
+    def __contains__(self, k):
+        return dict.__contains__(self, k) or k in self.parent
+
+    def __getitem__(self, k):
+        if dict.__contains__(self, k):
+            return dict.__getitem__(self, k)
+        return self.parent[k]
+
+    def get(self, k, default=None):
+        if dict.__contains__(self, k):
+            return dict.__getitem__(self, k)
+        return self.parent.get(k, default)
+
+    def __setitem__(self, k, v):
+        if k in self.nonlocals and not dict.__contains__(self, k):
+            self.parent[k] = v
+        else:
+            dict.__setitem__(self, k, v)
+
+    def keys(self):
+        return list(dict.fromkeys(list(self.parent.keys()) + list(dict.keys(self))))
+
+    def __iter__(self):
+        return iter(self.keys())
+
+    def items(self):
+        return [(k, self[k]) for k in self.keys()]
+
+
 class DDict(dict):
     """collections.defaultdict as modelled by the interpreter (factory is an interpreter callable)"""
     factory = None
@@ -412,6 +450,12 @@ class Interp:
             return ("native", val) if callable(val) else val
         if isinstance(obj, tuple) and len(obj) == 2 and obj == ("pymodule", "itertools") and name == "groupby":
             return ("builtin", "groupby")
+        if isinstance(obj, tuple) and len(obj) == 2 and obj == ("pymodule", "operator") and name in ("attrgetter", "itemgetter", "methodcaller"):
+            return ("builtin", name)
+        if isinstance(obj, tuple) and len(obj) == 2 and obj == ("pymodule", "itertools") and name in ("islice", "chain", "count", "zip_longest"):
+            return ("builtin", name)
+        if isinstance(obj, tuple) and len(obj) == 2 and obj == ("pymodule", "functools") and name in ("reduce", "partial"):
+            return ("builtin", name)
         if isinstance(obj, tuple) and len(obj) == 2 and obj[0] == "pymodule":
             if obj[1] == "warnings":
                 return ("native", lambda *a, **k: None)
@@ -501,7 +545,24 @@ class Interp:
         elif t is ast.AugAssign:
             cur = self.eval(st.target, env, func, depth)
             v = self.eval(st.value, env, func, depth)
-            self.assign(st.target, self.binop(st.op, cur, v), env, func, depth)
+            # in-place operators of mutable containers mutate the object every alias sees (list +=, set |= &= -= ^=, dict |=)
+            if isinstance(cur, SetVal) and not cur.frozen and isinstance(st.op, (ast.BitOr, ast.BitAnd, ast.Sub, ast.BitXor)) and isinstance(v, SetVal):
+                name = {ast.BitOr: "union", ast.BitAnd: "intersection", ast.Sub: "difference", ast.BitXor: "symmetric_difference"}[type(st.op)]
+                res = self.set_method(cur, name, [v], depth)
+                keep = list(res)
+                while len(cur):
+                    cur.drop_at(len(cur) - 1)
+                for x in keep:
+                    cur.push(x)
+                self.assign(st.target, cur, env, func, depth)
+            elif isinstance(cur, list) and not isinstance(cur, SetVal) and isinstance(st.op, ast.Add):
+                cur.extend(self.iterate(v))
+                self.assign(st.target, cur, env, func, depth)
+            elif isinstance(cur, dict) and isinstance(st.op, ast.BitOr) and isinstance(v, dict):
+                cur.update(v)
+                self.assign(st.target, cur, env, func, depth)
+            else:
+                self.assign(st.target, self.binop(st.op, cur, v), env, func, depth)
         elif t is ast.If:
             if self.truth(self.eval(st.test, env, func, depth)):
                 self.exec_block(st.body, env, func, depth)
@@ -1323,15 +1384,32 @@ class Interp:
             return self.call_func(m, args, kwargs, selfv, depth + 1)
         if isinstance(f, tuple) and f and f[0] == "closure":
             _, m, cenv = f
-            env2 = dict(cenv)
-            for p, v in zip(m.pos_params, args):
-                env2[p] = v
-            env2.update(kwargs)
+            nonlocals = [nm_ for st_ in ast.walk(m.node) if isinstance(st_, ast.Nonlocal) for nm_ in st_.names]
+            env2 = ChainEnv(cenv, nonlocals)
+            params = list(m.pos_params)
+            if len(args) > len(params) and not m.node.args.vararg:
+                raise Uninterpretable(f"too many positional arguments for nested function {m.name}")
+            for p, v in zip(params, args):
+                dict.__setitem__(env2, p, v)
+            if m.node.args.vararg:
+                dict.__setitem__(env2, m.node.args.vararg.arg, tuple(args[len(params):]))
+            for k_, v in kwargs.items():
+                dict.__setitem__(env2, k_, v)
+            dflt = m.node.args.defaults
+            for p, d in zip(params[len(params) - len(dflt):], dflt):
+                if not dict.__contains__(env2, p):
+                    dict.__setitem__(env2, p, self.eval(d, cenv, func, depth))
+            for a_, d in zip(m.node.args.kwonlyargs, m.node.args.kw_defaults):
+                if not dict.__contains__(env2, a_.arg) and d is not None:
+                    dict.__setitem__(env2, a_.arg, self.eval(d, cenv, func, depth))
+            is_gen = any(isinstance(x, (ast.Yield, ast.YieldFrom)) for x in walk_shallow(m.node))
+            if is_gen:
+                dict.__setitem__(env2, "__yields__", [])
             try:
                 self.exec_block(m.body_without_docstring(), env2, m, depth + 1)
             except _Return as r:
-                return r.value
-            return None
+                return _Gen(dict.__getitem__(env2, "__yields__")) if is_gen else r.value
+            return _Gen(dict.__getitem__(env2, "__yields__")) if is_gen else None
         if isinstance(f, tuple) and f and f[0] == "lambda":
             _, lam, cenv = f
             env2 = dict(cenv)
